@@ -52,6 +52,9 @@ type c07Item struct {
 
 const c07TextFam = gen.FAscii | gen.FHTML | gen.FMD | gen.FWide | gen.FNewline | gen.FCSV | gen.FEmoji | gen.FCombining
 
+// texts of items (as opposed to header keys) may hold anything: control characters, escape sequences, NUL, invalid UTF-8
+const c07ValueFam = c07TextFam | gen.FSGR | gen.FNUL | gen.FInvalid | gen.FZero | gen.FCR
+
 func c07RandomItem(r *gen.R) c07Item {
 	switch r.Intn(22) {
 	case 0:
@@ -70,11 +73,14 @@ func c07RandomItem(r *gen.R) c07Item {
 	case 5:
 		return c07Item{Desc: "exported-field struct", item: c07Exported{A: r.Intn(9), B: r.Str(c07TextFam, 3)}}
 	case 6:
-		s := r.Str(c07TextFam, 3)
+		s := r.Str(c07ValueFam, 3)
+		if r.Chance(1, 4) {
+			s += gen.Pick(r, []string{"\x1b[31mred\x1b[0m", "\a", "\v", "\x7f", "\x00", "\U000e0001", "\u2028", "\xff"})
+		}
 		return c07Item{Desc: fmt.Sprintf("field-less struct with String()=%q", s), item: c07FieldlessStringer{s}}
 	case 7:
 		raw := gen.Pick(r, []string{"{}", "{ }", "[1, 2]", "\"x\"", "{\"k\": {}}", "null", "17"})
-		txt := gen.Pick(r, []string{"", "text form", "<b>"})
+		txt := gen.Pick(r, []string{"", "text form", "<b>", "\x1b[1mbold\x1b[0m", "bell\a", "nul\x00", "del\x7f", "bad\xffutf8"})
 		return c07Item{Desc: fmt.Sprintf("json.Marshaler raw=%s text=%q", raw, txt), item: c07Marshaler{raw, txt}}
 	case 8:
 		return c07Item{Desc: "map", item: map[string]interface{}{"k": r.Intn(5), "z": []int{1, 2}}}
@@ -85,7 +91,7 @@ func c07RandomItem(r *gen.R) c07Item {
 	case 11:
 		return c07Item{Desc: "failing json.Marshaler", item: c07FailingMarshaler{}, fails: true}
 	case 12:
-		return c07Item{Desc: "nested Cell of text", item: tabular.NewCell(r.Str(c07TextFam, 3))}
+		return c07Item{Desc: "nested Cell of text", item: tabular.NewCell(r.Str(c07ValueFam, 3))}
 	case 13:
 		return c07Item{Desc: "pointer to exported-field struct", item: &c07Exported{A: 1}}
 	case 14:
@@ -93,13 +99,18 @@ func c07RandomItem(r *gen.R) c07Item {
 		m := it.Make()
 		return c07Item{Desc: "generated typed item " + it.Describe(), item: m.Item}
 	case 15:
+		if r.Bool() {
+			// an error value encodes as {} and falls back to its text
+			s := r.Str(c07ValueFam, 3) + gen.Pick(r, []string{"", "\x1b[0m", "\v", "\x7f"})
+			return c07Item{Desc: fmt.Sprintf("error value %q", s), item: errors.New(s)}
+		}
 		return c07Item{Desc: "empty struct", item: struct{}{}}
 	case 16:
 		return c07Item{Desc: "empty map", item: map[string]int{}}
 	case 17:
 		return c07Item{Desc: "rune", item: 'x'}
 	default:
-		s := r.Str(c07TextFam|gen.FInvalid, 5)
+		s := r.Str(c07ValueFam, 5)
 		return c07Item{Desc: fmt.Sprintf("string %q", s), item: s}
 	}
 }
